@@ -488,41 +488,41 @@ fn output_selector(
         }
         Selector::CompositeSelector(selectors) => {
             ann_out += "{ \"type\": \"http://www.w3.org/ns/oa#Composite\", \"items\": [";
-            for (i, selector) in selectors.iter().enumerate() {
-                ann_out += &format!(
-                    "{}",
-                    &output_selector(selector, store, config, true, need_second_pass, second_pass)
-                );
-                if i != selectors.len() - 1 {
-                    ann_out += ",";
-                }
-            }
+            //sub-selectors that can not be serialised yield nothing and must not leave a comma behind
+            let items: Vec<String> = selectors
+                .iter()
+                .map(|selector| {
+                    output_selector(selector, store, config, true, need_second_pass, second_pass)
+                })
+                .filter(|item| !item.is_empty())
+                .collect();
+            ann_out += &items.join(",");
             ann_out += " ]}";
         }
         Selector::MultiSelector(selectors) => {
             ann_out += "{ \"type\": \"http://www.w3.org/ns/oa#Independents\", \"items\": [";
-            for (i, selector) in selectors.iter().enumerate() {
-                ann_out += &format!(
-                    "{}",
-                    &output_selector(selector, store, config, true, need_second_pass, second_pass)
-                );
-                if i != selectors.len() - 1 {
-                    ann_out += ",";
-                }
-            }
+            //sub-selectors that can not be serialised yield nothing and must not leave a comma behind
+            let items: Vec<String> = selectors
+                .iter()
+                .map(|selector| {
+                    output_selector(selector, store, config, true, need_second_pass, second_pass)
+                })
+                .filter(|item| !item.is_empty())
+                .collect();
+            ann_out += &items.join(",");
             ann_out += " ]}";
         }
         Selector::DirectionalSelector(selectors) => {
             ann_out += "{ \"type\": \"http://www.w3.org/ns/oa#List\", \"items\": [";
-            for (i, selector) in selectors.iter().enumerate() {
-                ann_out += &format!(
-                    "{}",
-                    &output_selector(selector, store, config, true, need_second_pass, second_pass)
-                );
-                if i != selectors.len() - 1 {
-                    ann_out += ",";
-                }
-            }
+            //sub-selectors that can not be serialised yield nothing and must not leave a comma behind
+            let items: Vec<String> = selectors
+                .iter()
+                .map(|selector| {
+                    output_selector(selector, store, config, true, need_second_pass, second_pass)
+                })
+                .filter(|item| !item.is_empty())
+                .collect();
+            ann_out += &items.join(",");
             ann_out += " ]}";
         }
         Selector::DataKeySelector(..) | Selector::AnnotationDataSelector(..) => {
@@ -535,22 +535,21 @@ fn output_selector(
         Selector::RangedTextSelector { .. } | Selector::RangedAnnotationSelector { .. } => {
             if nested {
                 let subselectors: Vec<_> = selector.iter(store, false).collect();
-                for (i, subselector) in subselectors.iter().enumerate() {
-                    ann_out += &format!(
-                        "{}",
-                        &output_selector(
+                let items: Vec<String> = subselectors
+                    .iter()
+                    .map(|subselector| {
+                        output_selector(
                             &subselector,
                             store,
                             config,
                             true,
                             need_second_pass,
-                            second_pass
+                            second_pass,
                         )
-                    );
-                    if i != subselectors.len() - 1 {
-                        ann_out += ",";
-                    }
-                }
+                    })
+                    .filter(|item| !item.is_empty())
+                    .collect();
+                ann_out += &items.join(",");
             } else {
                 unreachable!(
                 "Internal Ranged selectors can not be serialized directly, they can be serialized only when under a complex selector",
